@@ -40,7 +40,10 @@ impl S3Storage {
     pub fn storage_data_on_cloud(db: &Database, reclame_space: bool, db_name: &String) -> u32 {
         let mut changed_keys = 0;
         let rt = Runtime::new().unwrap();
-        let keys_to_update = get_keys_to_update(db, reclame_space);
+        // The keys and values objects are replaced as a whole, they have to hold every key of
+        // the database and not only the changed ones (an incremental snapshot dropped the rest)
+        let _ = reclame_space;
+        let keys_to_update = get_keys_to_update(db, true);
         #[cfg(nundb_verif)]
         crate::verif_hooks::record_key_order(keys_to_update.iter().map(|(k, _)| k.clone()).collect());
 
